@@ -13,6 +13,11 @@ from rules import two_roundtrip as TR
 from rules import reader_interp as RI
 
 _WORLDS = {}
+# 'anon' (a main program without PROGRAM statement behind other units) shows known finding F7 in everything that looks at the tree or
+# the regenerated text (the earlier units are dropped), and F16; it is used where the reader position and the symbol tables matter.
+# 'cppbody' holds preprocessor lines and an unresolved INCLUDE of its own.
+TREE_SAMPLES = [n for n in sorted(PS.VALID) if n not in ("anon",)]
+PLAIN_SAMPLES = [n for n in sorted(PS.VALID) if n not in ("anon", "cppbody")]
 
 
 def world(m, std):
@@ -97,7 +102,8 @@ def roundtrip_rule(m, rid, tier, tokens=False):
                         "interpreted from the AST): %d small programs that together use every block construct, labels, construct names "
                         "and comments are parsed under both standards with comments kept and ignored; %s" % (len(PS.VALID) + len(PS.VALID_2008), what))
     run = Run(m, r)
-    cases = [("f2003", n, PS.VALID[n]) for n in pick(PS.VALID, tier, 3)] + [("f2008", n, PS.VALID[n]) for n in pick(PS.VALID, tier, 1)] \
+    pool = TREE_SAMPLES if tokens else sorted(PS.VALID)
+    cases = [("f2003", n, PS.VALID[n]) for n in pick(pool, tier, 3)] + [("f2008", n, PS.VALID[n]) for n in pick(pool, tier, 1)] \
         + [("f2008", n, PS.VALID_2008[n]) for n in pick(PS.VALID_2008, tier, 1)]
     for std, name, src in cases:
         for ic in ((True, False) if tier == "thorough" or name in ("comments", "main") else (True,)):
@@ -204,7 +210,7 @@ def errline_rule(m, rid, tier):
                         "that physical line and quotes its text (`at line N` / `>>>text`)")
     run = Run(m, r)
     rng = random.Random("errline")
-    for name in pick(PS.VALID, tier, 3):
+    for name in (pick(PS.VALID, tier, 3) if tier == "thorough" else sorted(set(pick(PS.VALID, tier, 2)) | {"anon"})):
         src = PS.VALID[name]
         lines, cand = statement_lines(src)
         ks = cand if tier == "thorough" else rng.sample(cand, min(3, len(cand)))
@@ -329,7 +335,7 @@ def state_rule(m, rid, tier):
                         "tree, text and symbol tables it gives to a freshly created parser")
     run = Run(m, r)
     rng = random.Random("state")
-    names = pick(PS.VALID, tier, 2)
+    names = pick(PLAIN_SAMPLES, tier, 2)
     fresh_cache = {}
     for name in names:
         src = PS.VALID[name]
@@ -391,7 +397,8 @@ def tree_rule(m, rid, tier):
                         "node that holds it (directly or in a nested tuple/list), the root has no parent, get_root() gives the root from "
                         "everywhere, and walk() yields every node once, in the order of the regenerated source")
     run = Run(m, r)
-    cases = [("f2003", n, PS.VALID[n]) for n in pick(PS.VALID, tier, 2)] + [("f2008", n, PS.VALID_2008[n]) for n in pick(PS.VALID_2008, tier, 1)]
+    cases = [("f2003", n, PS.VALID[n]) for n in (TREE_SAMPLES if tier == "thorough" else sorted(set(pick(TREE_SAMPLES, tier, 1)) | {"cppbody"}))] \
+        + [("f2008", n, PS.VALID_2008[n]) for n in pick(PS.VALID_2008, tier, 1)]
     for std, name, src in cases:
         for ic in ((True, False) if tier == "thorough" else (False,)):
             res = run.parse(std, src, ignore_comments=ic)
@@ -448,7 +455,7 @@ def tree_rule(m, rid, tier):
             r.ob(not problems, "%s (%s): %d nodes, all linked" % (name, std, len(seen)))
             for kind, text in problems[:2]:
                 run.fail("tree|%s|%s" % (kind, name), "program %r (%s, comments %s): %s" % (name, std, "ignored" if ic else "kept", text))
-    r.floor = 3
+    r.floor = 2
     return r
 
 
@@ -459,7 +466,7 @@ def comments_rule(m, rid, tier):
                         "is in the regenerated text exactly once, unchanged, in source order, a trailing comment directly behind its "
                         "statement; with comments ignored the tree is the tree of the source without any comment")
     run = Run(m, r)
-    names = ["comments", "main"] + ([n for n in sorted(PS.VALID) if n not in ("comments", "main")] if tier == "thorough" else [])
+    names = ["comments", "main"] + ([n for n in PLAIN_SAMPLES if n not in ("comments", "main")] if tier == "thorough" else [])
     for name in names:
         src = PS.VALID[name]
         kept = run.parse("f2003", src, ignore_comments=False)
@@ -554,6 +561,7 @@ def strip_comments(src):
 # =====================================================================================================
 # what the scoping structure of the samples is: {table: (declared symbols, used modules, [nested tables])}
 EXPECTED_TABLES = {
+    "anon": [("consts", ["pi"], [], []), ("fparser2:main_program", ["count", "val"], [], []), ("helper", ["x"], [], [])],
     "main": [("main", ["arr", "idx", "j"], [], [])],
     "module": [("mod_a", ["nn"], ["other_mod"], [("swap_i", ["a", "b", "tmp"], [], []), ("twice", ["x", "y"], [], [])])],
     "shadow": [("shade", ["cos"], [], [("first", ["sin", "x"], [], []), ("second", ["y"], [], [])])],
@@ -574,7 +582,7 @@ def symtab_rule(m, rid, tier):
                         "(upper case) exactly when the name is an intrinsic that no enclosing scope declares -- a declaration in a sibling "
                         "scope has no effect; in Fortran 2008 a BLOCK has a table of its own")
     run = Run(m, r)
-    names = sorted(EXPECTED_TABLES) if tier == "thorough" else ["shadow", "module"]
+    names = sorted(EXPECTED_TABLES) if tier == "thorough" else ["shadow", "module", "anon"]
     for name in names:
         res = run.parse("f2003", PS.VALID[name], ignore_comments=True)
         if res is None:
@@ -695,6 +703,23 @@ GARBAGE_SOURCES = [
     "program p\nend program q\n",
     "module m\n  interface\n    subroutine s(\n  end interface\nend module m\n",
     "program p\n  where (a > 0\n  end where\nend program p\n",
+    # error paths of the DO constructs: terminal statement missing, with another label, not allowed to end a DO
+    "subroutine s(a, n)\n  real :: a(n)\n  do 10 i = 1, n\n    a(i) = 0.0\n  a(1) = 1.0\nend subroutine s\n",
+    "subroutine s(a, n)\n  real :: a(n)\n  do 10 i = 1, n\n    a(i) = 0.0\n20 continue\nend subroutine s\n",
+    "subroutine s(a, n)\n  real :: a(n)\n  do 10 i = 1, n\n    a(i) = 0.0\n10 return\n  a(1) = 1.0\nend subroutine s\n",
+    "program p\n  do 10 i = 1, 2\n  do 10 j = 1, 2\n    x = 1\n  y = 2\nend program p\n",
+    # shapes and bounds: a section where a shape is wanted, bounds remapping, bad bounds
+    "subroutine s()\n  real :: a(1:2, :)\nend subroutine s\n",
+    "subroutine s(p, t)\n  real, pointer :: p(:,:)\n  real, target :: t(9)\n  p(1:3, 1:3) => t\nend subroutine s\n",
+    "subroutine s()\n  real :: a(:2)\n  allocate (a(1:))\nend subroutine s\n",
+    "program p\n  integer :: i(3)\n  i(1:2:) = 0\n  i(::) = 1\nend program p\n",
+    # a name on END that differs, for every kind of unit
+    "block data init_c\n  integer :: k\n  common /c/ k\nend block data init_d\n",
+    "function f(x)\n  f = x\nend function g\n",
+    # odd but accepted or rejected without fuss
+    "program p\n  ;\nend program p\n",
+    "program p\n  x = 1 ;; y = 2 ;\nend program p\n",
+    "program p\n  implicit real(a-h, o-z)\n  character*(*) c\nend program p\n",
 ]
 
 
@@ -705,7 +730,7 @@ def garbage_rule(m, rid, tier):
                         "no NoMatchError, InternalSyntaxError, InternalError, AttributeError, IndexError ... comes out (the process exit "
                         "on a mismatched unit name is known finding F3)" % len(GARBAGE_SOURCES))
     run = Run(m, r)
-    srcs = GARBAGE_SOURCES if tier == "thorough" else GARBAGE_SOURCES[::3]
+    srcs = GARBAGE_SOURCES
     for std in (("f2003", "f2008") if tier == "thorough" else ("f2008",)):
         for src in srcs:
             res = run.parse(std, src, ignore_comments=True)
@@ -732,7 +757,7 @@ def include_rule(m, rid, tier):
                         "program is valid with the line in place)")
     run = Run(m, r)
     rng = random.Random("include-tree")
-    for name in pick([n for n in PS.VALID if n != "comments"], tier, 2):
+    for name in pick([n for n in PLAIN_SAMPLES if n != "comments"], tier, 2):
         src = PS.VALID[name]
         base = run.parse("f2003", src, ignore_comments=True)
         if base is None:
@@ -805,7 +830,7 @@ def directive_rule(m, rid, tier):
                         "without those lines it is the regenerated text of the original program" % len(DIRECTIVES))
     run = Run(m, r)
     rng = random.Random("directive-tree")
-    for name in pick([n for n in PS.VALID if n != "comments"], tier, 2):
+    for name in pick([n for n in PLAIN_SAMPLES if n != "comments"], tier, 2):
         src = PS.VALID[name]
         base = run.parse("f2003", src, ignore_comments=True)
         if base is None:
@@ -848,6 +873,17 @@ def directive_rule(m, rid, tier):
             if not ok:
                 run.fail("directives|%s" % ("rejected" if res[0] != "tree" else "differs"), "program %r with %r inserted before lines %r: %s.  Source: %s"
                          % (name, used, [p + 1 for p in pos], why, show("\n".join(out), 14)))
+    # a main program whose body holds nothing but preprocessor lines (sample 'cppbody'), and includes inside nested labelled loops
+    src = PS.VALID["cppbody"]
+    res = run.parse("f2003", src, ignore_comments=True)
+    if res is not None:
+        r.instances += 1
+        want = [l.strip() for l in src.split("\n") if l.strip().startswith("#")]
+        ok = res[0] == "tree" and [l.strip() for l in str(res[1]).split("\n") if l.strip().startswith("#")] == want
+        r.ob(ok, "cppbody: a body of directives only")
+        if not ok:
+            run.fail("directives|only-body", "a main program whose body consists of preprocessor lines only %s.  Source: %s"
+                     % ("is rejected (%s %s)" % (res[1], (res[2] or "")[:60].replace("\n", " / ")) if res[0] != "tree" else "loses or changes directive lines", show(src, 8)))
     r.floor = 2
     return r
 
@@ -899,7 +935,7 @@ def layout_rule(m, rid, tier, form="free"):
                             "regenerated text are those of the free-form program")
         table, layout = feats_fixed, RI.fixed_layout
     run = Run(m, r)
-    names = [n for n in sorted(PS.VALID) if statements_of(PS.VALID[n]) is not None]
+    names = [n for n in PLAIN_SAMPLES if statements_of(PS.VALID[n]) is not None]
     for name in (names if tier == "thorough" else names[1:3]):
         stmts = statements_of(PS.VALID[name])
         plain = "\n".join(RI.head(lb, nm) + tx for lb, nm, tx in stmts) + "\n"
@@ -941,7 +977,7 @@ def conditional_rule(m, rid, tier):
                         "option enabled the tree and the regenerated text are those of the program without sentinels; with the option "
                         "off (comments ignored) they are those of the program without these statements")
     run = Run(m, r)
-    names = [n for n in sorted(PS.VALID) if statements_of(PS.VALID[n]) is not None]
+    names = [n for n in PLAIN_SAMPLES if statements_of(PS.VALID[n]) is not None]
     for name in (names if tier == "thorough" else names[:2]):
         stmts = statements_of(PS.VALID[name])
         # hide simple executable statements only (removing them must leave a valid program)
